@@ -715,7 +715,41 @@ def _check_wbname(case):
         shutil.rmtree(d, ignore_errors=True)
 
 
+# ---- relative R1C1 forms in cells that share one sheet context: each is resolved against ITS host cell ----
+def _host_cases(tier, rng):
+    hosts = ['B2', 'C5', 'D4', 'AA10', 'B2']
+    forms = ['=R[-1]C[-1]', '=R[1]C[2]', '=SUM(R[-1]:R[1])', '=SUM(C[-1]:C[1])', '=R[1]C[-1]+R[-1]C[1]', '=SUM(R[-1]C[-1]:R[1]C[1])']
+    return [('hosts', tuple(rng.sample(hosts, len(hosts))), f) for f in forms]
+
+
+def _check_hosts(case):
+    from formulas.cell import Cell
+    _, hosts, formula = case
+    ctx = {'directory': '', 'filename': 'book.xlsx', 'sheet': 'Sheet1'}
+    before = dict(ctx)
+
+    for host in hosts:
+        try:
+            cell = Cell(host, formula, context=ctx).compile(context=ctx)
+            got = sorted(cell.inputs or [])
+        except Exception as ex:
+            return 'Cell(%s, %s) with a shared sheet context raised %s: %s' % (host, formula, type(ex).__name__, str(ex)[:80])
+        try:
+            fresh = Cell(host, formula, context=dict(before)).compile(context=dict(before))
+            want = sorted(fresh.inputs or [])
+        except Exception as ex:
+            return 'Cell(%s, %s) with a fresh context raised %s' % (host, formula, type(ex).__name__)
+        if got != want:
+            return 'host %s, %s: with the sheet context shared by earlier cells the references are %r, with a context of its own %r' % (
+                host, formula, got, want)
+    return None
+
+
 BOUNDED = [
+    Stage('B2:relative-references-of-cells-sharing-one-sheet-context', 'C04', _host_cases, _check_hosts,
+          '6 formulas with relative R1C1 forms placed in five host cells that are built one after the other with the SAME context dictionary '
+          '(as ExcelModel builds the cells of a sheet): each resolves against its own host (the absolute value of the offsets is the business of stage B1)',
+          parallel=False),
     Stage('B2:defined-names-of-a-workbook-in-any-letter-case', 'C04', _wbname_cases, _check_wbname,
           '%d workbooks with a defined name (mixed case, dots, underscores, digits) referenced in four letter cases from cell formulas: all '
           'spellings denote the name' % len(_WB_NAMES), parallel=False),
